@@ -2,7 +2,7 @@
 from typing import Dict
 
 from .engine import Batch, Check
-from . import gen_a, gen_b, oracles_a
+from . import gen_a, gen_b, oracles_a, oracles_rules
 
 
 def _wd_c03(where):
@@ -133,5 +133,32 @@ def registry() -> Dict[str, Check]:
         rule="Driver-A runs with an index market over 2-4 components with unequal outstanding shares; "
              "non-trivial = unequal weights and at least one fill.",
         need_probes=["unequal_weights_checked"],
+    )
+    reg["C14"] = Check(
+        "C14", {"C14", "C19"},
+        [Batch("A-shocks", gen_a.gen_rules, 500, 10000, driver="A", budget_s=30.0, profile="shocks")],
+        plugins=lambda: [oracles_rules.ShockPlugin()],
+        nontrivial=lambda s: s["probes"].get("fund_shock_fired", 0) + s["probes"].get("mistake_replaced", 0) > 0,
+        rule="Driver-A runs with 2-4 markets and 1-4 fundamental / order-mistake shocks; non-trivial = a shock fired.",
+        need_probes=["fund_shock_fired", "mistake_replaced", "mistake_foreign_market_order_first", "mistake_rate_zero",
+                     "fund_shock_on_zero_vol"],
+    )
+    reg["C15"] = Check(
+        "C15", {"C15", "C19"},
+        [Batch("A-limit", gen_a.gen_rules, 500, 10000, driver="A", budget_s=30.0, profile="limit")],
+        plugins=lambda: [oracles_rules.PriceLimitPlugin()],
+        nontrivial=lambda s: s["probes"].get("c15_clipped_high", 0) + s["probes"].get("c15_clipped_low", 0) > 0,
+        rule="Driver-A runs with 2-4 markets and a price limit rule on a subset; non-trivial = a price was clipped.",
+        need_probes=["c15_clipped_high", "c15_clipped_low", "c15_on_edge", "c15_inside", "c15_non_target_order_seen",
+                     "c15_market_order_on_target", "c15_fill_between_banded_orders"],
+    )
+    reg["C16"] = Check(
+        "C16", {"C16"},
+        [Batch("A-halt", gen_a.gen_rules, 500, 10000, driver="A", budget_s=30.0, profile="halt")],
+        plugins=lambda: [oracles_rules.HaltPlugin(), oracles_a.SessionRulesPlugin()],
+        nontrivial=lambda s: s["probes"].get("halt_triggered", 0) > 0,
+        rule="Driver-A runs with trading halt rules and price-walking scripted agents; non-trivial = a halt was triggered.",
+        need_probes=["halt_triggered", "halt_released_by_timeout", "halt_ended_by_session_end", "second_halt_moved_line",
+                     "order_accepted_during_halt", "cancel_accepted_during_halt", "deviation_between_1x_and_moved_line"],
     )
     return reg
